@@ -5,6 +5,7 @@
 //! op lines, then executed one by one against the real crates under `catch_unwind`.
 
 mod tags;
+mod typed;
 mod util;
 
 use std::io::{BufRead, Write};
@@ -23,7 +24,10 @@ struct Family {
     exec: fn(&[&str]) -> String,
 }
 
-const FAMILIES: &[Family] = &[Family { name: "tags", gen: tags::gen, exec: tags::exec }];
+const FAMILIES: &[Family] = &[
+    Family { name: "tags", gen: tags::gen, exec: tags::exec },
+    Family { name: "typed", gen: typed::gen, exec: typed::exec },
+];
 
 fn main() {
     let args: Vec<String> = std::env::args().collect();
